@@ -293,6 +293,7 @@ func runC08(c *Ctx) {
 	layoutAgreement(c)
 	genRound2(c)
 	encodeErrorsKept(c)
+	errorsNotDropped(c)
 	floatBuiltinReportsNonFinite(c)
 	omittableValueOnlyWhenSet(c)
 
